@@ -71,6 +71,11 @@ CHECKS = {
     text="The statement structure of process_input and main is re-read from mod_daemon.py on every run. A small operational semantics of such skeletons (any expression not listed as safe may raise any Exception subclass; one tracked variable) and an analysis of all possible (outcome, replies written) pairs are defined in Coq with a kernel-checked soundness theorem over all skeletons/executions. Evaluated on the regenerated skeletons the kernel checks: on a non-empty line every path returns normally with exactly one reply written; an empty line writes nothing; the main loop lets no exception escape and makes stdin lenient before reading; the only statement writing to the saved stdout is the reply and stdout is redirected at import. The real daemon is run on generated request histories (22 request kinds incl. undecodable bytes, blank lines, EXIT/EOF variants) under five environments; count, order, decodability and class of replies are checked.",
     note="Trusted: Coq kernel; SkelSem.v semantics and the listed non-raising assumptions (SkelEnvs.v); translator skeletons.py. BaseException-only exceptions, OS pipes and buffering are outside the model (exercised by the process runs only). The per-line theorem and the loop structure are connected by reading, not by a machine-checked composition.",
     design="4 C14"),
+ "C10": dict(
+    category="proof", technique="Coq: verified outcome analysis evaluated on the regenerated skeletons of Compiler.compile, compile_code and eval_constexpr (every exception path enumerated symbolically) + fault enumeration on the implementation with wall-clock limit and /proc scan",
+    text="With the sound skeleton analysis (theorem over all skeletons/executions) the kernel checks on the skeletons re-read from the sources: whatever Exception subclass is raised anywhere inside the try of Compiler.compile, every path ends in a return of the result or an {'error': ..} dictionary; compile_code (CompileOptions value/None, str source) always ends in that return; after the constexpr child is started, every path on which communicate() did not complete kills the child before leaving. The implementation is exercised by fault enumeration: prefixes of the repository's programs (keystroke model), mutations, random Unicode, every unsupported construct, recursion, constexpr bodies that fail/print/never end/sleep/exit/return non-JSON/spawn; each call under a wall-clock limit, followed by a scan for surviving child processes; verdict shape, statistics and error position (inside the submitted text) are checked.",
+    note="Partial: wall-clock bounds and OS process state are runtime behaviour that the model cannot exhibit (exercised, not proved). Assumed: exception handlers do not raise; BaseException-only exceptions not modelled; option dictionaries with unknown keys and source mappings without \"\" are API misuse outside the property's domain. Trusted: Coq kernel; SkelSem.v; translator skeletons.py.",
+    design="4 C10"),
 }
 
 NOT_YET = {}
